@@ -73,8 +73,9 @@ def check(run, prog, tier):
             msg = f"returns False with {len(sends)} answer(s), {len(writes)} store write(s)"
         elif stopsub == [True]:
             kind = "stop-subscribe"
-            ok = rv == const(True) and not sends and len(removals) == 1 and not writes
-            msg = f"StopSubscribe: {len(removals)} removal(s), {len(sends)} answer(s) (must be 1 and 0)"
+            # (that it ends exactly the named subscription is C06-H1; here: no answer, nothing recorded)
+            ok = rv == const(True) and not sends and not writes
+            msg = f"StopSubscribe: {len(sends)} answer(s), {len(writes)} store write(s) (must be 0 and 0)"
         elif rejected:
             kind = "rejected"
             ok = rv == const(True) and len(sends) == 1 and not writes
